@@ -262,6 +262,7 @@ type Unit struct {
 	EntryVals  []Value
 	RetCount   int
 	Canaries   []*Query
+	CallProbes map[string]*callProbe // vacuity probe per call site (first path reaching it)
 	loopOrd    map[*ssa.BasicBlock]int
 	loopBody   map[*ssa.BasicBlock]map[*ssa.BasicBlock]bool
 	SafetyOnly bool
@@ -594,4 +595,32 @@ func (u *Unit) havocHeap(s *State, key string, old *Term) *Term {
 		s.assume(Forall([]*Term{r}, u.wf(s, elem, e), e))
 	}
 	return nh
+}
+
+// callProbe: the path condition just before a callee contract is applied and just after its ensures
+// are assumed. `before` satisfiable and `after` unsatisfiable means the contract (or its frame)
+// contradicts what the caller knows: everything proved after that call would be vacuous.
+type callProbe struct {
+	Site   string
+	Before *Query
+	After  *Query
+}
+
+func (u *Unit) probeBefore(s *State, site string) *callProbe {
+	if u.CallProbes == nil {
+		u.CallProbes = map[string]*callProbe{}
+	}
+	if _, ok := u.CallProbes[site]; ok {
+		return nil
+	}
+	p := &callProbe{Site: site, Before: &Query{Decls: append([]string(nil), s.Decls...), PC: append([]*Term(nil), s.PC...), Goal: False}}
+	u.CallProbes[site] = p
+	return p
+}
+
+func (u *Unit) probeAfter(s *State, p *callProbe) {
+	if p == nil {
+		return
+	}
+	p.After = &Query{Decls: append([]string(nil), s.Decls...), PC: append([]*Term(nil), s.PC...), Goal: False}
 }
